@@ -168,6 +168,13 @@ func (s *vfSim) waitHealed(done func() bool, bound time.Duration) bool {
 // vfAllReliableDelivered: every accepted write on a reliable ordered stream has been read
 // and both senders report zero buffered bytes.
 func vfAllDelivered(s *vfSim) bool {
+	// partially reliable streams (configured by the scenario) may lose messages: not counted
+	pr := map[[2]int]bool{}
+	for i := range s.sc.Acts {
+		if a := &s.sc.Acts[i]; a.Kind == "setrel" && a.RelT != 0 {
+			pr[[2]int{a.Side, a.SID}] = true
+		}
+	}
 	s.mu.Lock()
 	nw, nr := 0, 0
 	pending := false
@@ -175,12 +182,12 @@ func vfAllDelivered(s *vfSim) bool {
 		if !w.Done {
 			pending = true
 		}
-		if w.Done && w.Err == "" && w.Size > 0 {
+		if w.Done && w.Err == "" && w.Size > 0 && !pr[[2]int{w.Side, int(w.SID)}] {
 			nw++
 		}
 	}
 	for _, r := range s.reads {
-		if r.Err == "" {
+		if r.Err == "" && !pr[[2]int{1 - r.Side, int(r.SID)}] {
 			nr++
 		}
 	}
